@@ -66,8 +66,14 @@ def main():
         k = act[0]
         try:
             if k == "import":
+                # optional argument: import an unrelated module (one more memento function) before / after
+                when = act[1] if len(act) > 1 else None
+                if when == "other-first":
+                    module("other")
                 module("aux")
                 module("mod")
+                if when == "other-last":
+                    module("other")
                 out.append("ok")
             elif k == "versions":
                 res = {}
@@ -75,7 +81,7 @@ def main():
                 cands = dict(objs)
                 for w in ("aux", "mod"):
                     for n, o in vars(module(w)).items():
-                        if isinstance(o, MementoFunctionType) and not n.startswith("a_"):
+                        if isinstance(o, MementoFunctionType) and not n.startswith("a_") and n != "unrelated":
                             cands.setdefault(n, o)
                 for n, o in cands.items():
                     if names is not None and n not in names:
